@@ -8,6 +8,7 @@ import (
 	"runtime/debug"
 	"sort"
 	"strings"
+	"sync"
 	"testing"
 	"testing/synctest"
 	"time"
@@ -30,29 +31,33 @@ type Result struct {
 	Key     string `json:"key,omitempty"` // finding key: call site / input class
 	Detail  string `json:"detail,omitempty"`
 
-	Steps    int            `json:"steps"`
-	Switches int            `json:"switches"`
-	SimMs    int64          `json:"sim_ms"`
-	Digest   string         `json:"digest"`
-	Fired    map[string]int `json:"fired,omitempty"`
-	Probes   map[string]int `json:"probes,omitempty"`
-	Cell     string         `json:"cell,omitempty"`
-	Sites    int            `json:"sites,omitempty"`
-	Pairs    int            `json:"pairs,omitempty"`
-	NonTriv  bool           `json:"nontrivial"`
-	Evals    int            `json:"evals,omitempty"` // executions inside this case (default 1)
-	Sample   any            `json:"sample,omitempty"`
-	Choices  []uint64       `json:"choices,omitempty"`
-	Trace    []string       `json:"trace,omitempty"`
-	SiteSet  []string       `json:"site_set,omitempty"`
-	Transcript string       `json:"transcript,omitempty"`
-	HangInfo   string       `json:"hang_info,omitempty"`
+	Steps      int            `json:"steps"`
+	Switches   int            `json:"switches"`
+	SimMs      int64          `json:"sim_ms"`
+	Digest     string         `json:"digest"`
+	Fired      map[string]int `json:"fired,omitempty"`
+	Probes     map[string]int `json:"probes,omitempty"`
+	Cell       string         `json:"cell,omitempty"`
+	Sites      int            `json:"sites,omitempty"`
+	Pairs      int            `json:"pairs,omitempty"`
+	NonTriv    bool           `json:"nontrivial"`
+	Evals      int            `json:"evals,omitempty"` // executions inside this case (default 1)
+	Sample     any            `json:"sample,omitempty"`
+	Choices    []uint64       `json:"choices,omitempty"`
+	Trace      []string       `json:"trace,omitempty"`
+	SiteSet    []string       `json:"site_set,omitempty"`
+	Transcript string         `json:"transcript,omitempty"`
+	HangInfo   string         `json:"hang_info,omitempty"`
 	// frozen is set before end-of-run cleanup: what the workload observes while
 	// the simulator tears connections down is not a finding.
 	frozen bool
 }
 
+var resMu sync.Mutex
+
 func (r *Result) Fire(k string) {
+	resMu.Lock()
+	defer resMu.Unlock()
 	if r.Fired == nil {
 		r.Fired = map[string]int{}
 	}
@@ -60,6 +65,8 @@ func (r *Result) Fire(k string) {
 }
 
 func (r *Result) Probe(k string) {
+	resMu.Lock()
+	defer resMu.Unlock()
 	if r.Probes == nil {
 		r.Probes = map[string]int{}
 	}
@@ -98,6 +105,9 @@ type Prop struct {
 	// OnDeath classifies a worker process that died while running a case
 	// (engine B child-process isolation); nil means machinery trouble.
 	OnDeath func(r *Result)
+	// OnStderr lets a property turn what a worker printed on stderr (race
+	// reports) into outcomes of the runs of that worker.
+	OnStderr func(stderr string, results []*Result, probe func(string))
 	// Run executes one run. Engine A drivers call Bubble themselves.
 	Run func(t *testing.T, c *choice.Stream, r *Result, opt RunOpt)
 }
@@ -166,7 +176,10 @@ func Bubble(t *testing.T, c *choice.Stream, r *Result, opt RunOpt, setup func(e 
 	uuid.SetRand(&seededReader{s: c.Seed})
 	defer uuid.SetRand(nil)
 	leak := ""
-	func() {
+	// A subtest of its own: when the race detector reports something during
+	// the bubble, the testing package fails the bubble's test and FailNow's
+	// its parent, which must not be the worker's main test function.
+	t.Run("bubble", func(t *testing.T) {
 		defer func() {
 			if p := recover(); p != nil {
 				leak = fmt.Sprint(p) + "\n" + string(debug.Stack())
@@ -252,7 +265,7 @@ func Bubble(t *testing.T, c *choice.Stream, r *Result, opt RunOpt, setup func(e 
 			sim.Release()
 			synctest.Wait()
 		})
-	}()
+	})
 	curSim = nil
 	if leak != "" {
 		if r.Outcome == "" || r.Outcome == "ok" {
